@@ -15,6 +15,7 @@ import (
 	"regexp"
 	"strconv"
 	"strings"
+	"sync"
 
 	"genir/lay"
 )
@@ -145,6 +146,18 @@ var (
 	reSetPtrE = regexp.MustCompile(`^err=s\.Struct\.SetPtr\(` + num + `,(ss\.Struct|l\.List)\.ToPtr\(\)\)$`)
 )
 
+var rxCache sync.Map
+
+// rx compiles a pattern once.
+func rx(p string) *regexp.Regexp {
+	if r, ok := rxCache.Load(p); ok {
+		return r.(*regexp.Regexp)
+	}
+	r := regexp.MustCompile(p)
+	rxCache.Store(p, r)
+	return r
+}
+
 func pnum(s string) string {
 	v, err := strconv.ParseUint(s, 0, 64)
 	if err != nil {
@@ -247,7 +260,7 @@ func (g *goFile) getter(recv, name string) (string, error) {
 		if st[0] == "return"+rty+"(s)" && tag == "None" {
 			return res("GGroup")
 		}
-		if m := regexp.MustCompile(`^returns\.Struct\.Ptr\(` + num + `\)$`).FindStringSubmatch(st[0]); m != nil && strings.HasSuffix(rty, ".Ptr") {
+		if m := rx(`^returns\.Struct\.Ptr\(` + num + `\)$`).FindStringSubmatch(st[0]); m != nil && strings.HasSuffix(rty, ".Ptr") {
 			return res(fmt.Sprintf("GPtr %s KAnyPtr false", pnum(m[1])))
 		}
 	}
@@ -265,11 +278,11 @@ func (g *goFile) getter(recv, name string) (string, error) {
 			switch {
 			case rest[0] == "returnp.Text(),err" && rty == "string":
 				return res(fmt.Sprintf("GPtr %s KText false", slot))
-			case regexp.MustCompile(`^returnp\.TextDefault\(".+"\),err$`).MatchString(rest[0]) && rty == "string":
+			case rx(`^returnp\.TextDefault\(".+"\),err$`).MatchString(rest[0]) && rty == "string":
 				return res(fmt.Sprintf("GPtr %s KText true", slot))
 			case rest[0] == "return"+rty+"(p.Data()),err":
 				return res(fmt.Sprintf("GPtr %s KData false", slot))
-			case regexp.MustCompile(`^return`+regexp.QuoteMeta(rty)+`\(p\.DataDefault\(\[\]byte\{.+\}\)\),err$`).MatchString(rest[0]):
+			case rx(`^return`+regexp.QuoteMeta(rty)+`\(p\.DataDefault\(\[\]byte\{.+\}\)\),err$`).MatchString(rest[0]):
 				return res(fmt.Sprintf("GPtr %s KData true", slot))
 			case rest[0] == "return"+rty+"{Struct:p.Struct()},err":
 				return res(fmt.Sprintf("GPtr %s KStruct false", slot))
@@ -279,14 +292,14 @@ func (g *goFile) getter(recv, name string) (string, error) {
 		}
 		if len(rest) == 3 && reErrRet.MatchString(rest[0]) {
 			switch {
-			case regexp.MustCompile(`^ss,err:=p\.StructDefault\(`+reStatic+`\)$`).MatchString(rest[1]) && rest[2] == "return"+rty+"{Struct:ss},err":
+			case rx(`^ss,err:=p\.StructDefault\(`+reStatic+`\)$`).MatchString(rest[1]) && rest[2] == "return"+rty+"{Struct:ss},err":
 				return res(fmt.Sprintf("GPtr %s KStruct true", slot))
-			case regexp.MustCompile(`^l,err:=p\.ListDefault\(`+reStatic+`\)$`).MatchString(rest[1]) && rest[2] == "return"+rty+"{List:l},err":
+			case rx(`^l,err:=p\.ListDefault\(`+reStatic+`\)$`).MatchString(rest[1]) && rest[2] == "return"+rty+"{List:l},err":
 				return res(fmt.Sprintf("GPtr %s KList true", slot))
 			}
 		}
 		if len(rest) == 2 && reErrRet.MatchString(rest[0]) &&
-			regexp.MustCompile(`^returnp\.Default\(`+reStatic+`\)$`).MatchString(rest[1]) {
+			rx(`^returnp\.Default\(`+reStatic+`\)$`).MatchString(rest[1]) {
 			return res(fmt.Sprintf("GPtr %s KAnyPtr true", slot))
 		}
 	}
@@ -307,7 +320,7 @@ func (g *goFile) getBytes(recv, name string) (string, error) {
 	}
 	if len(st) == 2 {
 		if m := rePtr.FindStringSubmatch(st[0]); m != nil &&
-			(st[1] == "returnp.TextBytes(),err" || regexp.MustCompile(`^returnp\.TextBytesDefault\(".+"\),err$`).MatchString(st[1])) {
+			(st[1] == "returnp.TextBytes(),err" || rx(`^returnp\.TextBytesDefault\(".+"\),err$`).MatchString(st[1])) {
 			return fmt.Sprintf("(%s, %s)", tag, pnum(m[1])), nil
 		}
 	}
@@ -388,7 +401,7 @@ func (g *goFile) setter(recv, name string) (string, error) {
 			{`^returns\.Struct\.SetPtr\(` + num + `,v\.List\.ToPtr\(\)\)$`, "KList", "false"},
 			{`^returns\.Struct\.SetPtr\(` + num + `,v\)$`, "KAnyPtr", "false"},
 		} {
-			if m := regexp.MustCompile(c.re).FindStringSubmatch(st[0]); m != nil {
+			if m := rx(c.re).FindStringSubmatch(st[0]); m != nil {
 				if c.kind == "KText" && pty != "string" || c.kind == "KAnyPtr" && !strings.HasSuffix(pty, ".Ptr") {
 					return bad("parameter type " + pty)
 				}
@@ -397,15 +410,15 @@ func (g *goFile) setter(recv, name string) (string, error) {
 		}
 	}
 	if len(st) == 2 && st[0] == "ifv==nil{v=[]byte{}}" {
-		if m := regexp.MustCompile(`^returns\.Struct\.SetData\(` + num + `,v\)$`).FindStringSubmatch(st[1]); m != nil {
+		if m := rx(`^returns\.Struct\.SetData\(` + num + `,v\)$`).FindStringSubmatch(st[1]); m != nil {
 			return res(fmt.Sprintf("SPtr %s KData true", pnum(m[1])))
 		}
 	}
 	if len(st) == 4 {
-		m1 := regexp.MustCompile(`^if!v\.Client\.IsValid\(\)\{returns\.Struct\.SetPtr\(` + num + `,capnp\.Ptr\{\}\)\}$`).FindStringSubmatch(st[0])
-		m4 := regexp.MustCompile(`^returns\.Struct\.SetPtr\(` + num + `,in\.ToPtr\(\)\)$`).FindStringSubmatch(st[3])
+		m1 := rx(`^if!v\.Client\.IsValid\(\)\{returns\.Struct\.SetPtr\(` + num + `,capnp\.Ptr\{\}\)\}$`).FindStringSubmatch(st[0])
+		m4 := rx(`^returns\.Struct\.SetPtr\(` + num + `,in\.ToPtr\(\)\)$`).FindStringSubmatch(st[3])
 		if m1 != nil && m4 != nil && pnum(m1[1]) == pnum(m4[1]) && st[1] == "seg:=s.Segment()" &&
-			regexp.MustCompile(`^in:=`+ident+`\.NewInterface\(seg,seg\.Message\(\)\.AddCap\(v\.Client\)\)$`).MatchString(st[2]) {
+			rx(`^in:=`+ident+`\.NewInterface\(seg,seg\.Message\(\)\.AddCap\(v\.Client\)\)$`).MatchString(st[2]) {
 			return res(fmt.Sprintf("SPtr %s KInterface false", pnum(m1[1])))
 		}
 	}
@@ -441,8 +454,8 @@ func (g *goFile) newf(recv, name string) (string, error) {
 		}
 	}
 	if len(st) == 4 && reErrRet.MatchString(st[1]) {
-		okAlloc := regexp.MustCompile(`^ss,err:=`+qident+`\(s\.Struct\.Segment\(\)\)$`).MatchString(st[0]) && st[3] == "returnss,err" ||
-			regexp.MustCompile(`^l,err:=`+qident+`\(s\.Struct\.Segment\(\),n\)$`).MatchString(st[0]) && st[3] == "returnl,err"
+		okAlloc := rx(`^ss,err:=`+qident+`\(s\.Struct\.Segment\(\)\)$`).MatchString(st[0]) && st[3] == "returnss,err" ||
+			rx(`^l,err:=`+qident+`\(s\.Struct\.Segment\(\),n\)$`).MatchString(st[0]) && st[3] == "returnl,err"
 		if m := reSetPtrE.FindStringSubmatch(st[2]); m != nil && okAlloc {
 			return fmt.Sprintf("(%s, %s)", tag, pnum(m[1])), nil
 		}
@@ -499,7 +512,7 @@ func (g *goFile) nodeIR(n lay.NodeRec) (string, error) {
 		}
 		st := g.stmts(d)
 		if len(st) == 2 && st[1] == ret {
-			if m := regexp.MustCompile(re).FindStringSubmatch(st[0]); m != nil {
+			if m := rx(re).FindStringSubmatch(st[0]); m != nil {
 				return fmt.Sprintf("(Some (%s, %s))", pnum(m[1]), pnum(m[2])), nil
 			}
 		}
@@ -524,7 +537,7 @@ func (g *goFile) nodeIR(n lay.NodeRec) (string, error) {
 	which := "None"
 	if d := g.methods[n.Type]["Which"]; d != nil {
 		st := g.stmts(d)
-		m := regexp.MustCompile(`^return` + n.Type + `_Which\(s\.Struct\.Uint16\(` + num + `\)\)$`).FindStringSubmatch(strings.Join(st, ";"))
+		m := rx(`^return` + n.Type + `_Which\(s\.Struct\.Uint16\(` + num + `\)\)$`).FindStringSubmatch(strings.Join(st, ";"))
 		if m == nil {
 			return "", fnErr{n.Type + ".Which", "unrecognised Which: " + strings.Join(st, " ; ")}
 		}
